@@ -234,7 +234,9 @@ def job_filter(j, seed):
             nz = v != 0
             d = C.FALSE
             for m in range(-9, 10):
-                d = d | (abs(ref / v - m) < tol)
+                # |ref / v - m| < tol written without dividing by v: a quotient in the goal would bring v != 0 with it as a
+                # side condition of the term layer and make the obligation vacuous exactly at f = 0
+                d = d | (abs(ref - m * v) < tol * abs(v))
         return c | (nz & d)
 
     for k, p in enumerate(paths):
